@@ -84,6 +84,20 @@ SliceInvalidCases(shape) ==
    /\ P(CaseRec("slice", "Slice", <<>>, <<X, I64(<<0>>), I64(<<1>>), I64(<<-r - 1>>)>>, SemSliceInts(X, <<0>>, <<1>>, <<-r - 1>>, <<1>>), <<"invalid", "axis_oor">>))
    /\ P(CaseRec("slice", "Slice", <<>>, <<X, I64(<<0, 0>>), I64(<<1>>)>>, SemSliceInts(X, <<0, 0>>, <<1>>, <<0, 1>>, <<1, 1>>), <<"invalid", "length_mismatch">>))
 
+\* every axes list of length 3 and 4 over a rank-2 and a rank-3 tensor (each axis in its positive or negative spelling): a list that
+\* names an axis twice - in adjacent positions or not, in one spelling or two - is refused; a list of distinct axes is answered
+AxesListCases ==
+   \A shape \in {<<3, 4>>, <<2, 3, 4>>} :
+      LET X == Iota("f32", shape, 0) r == Len(shape) IN
+      \A n \in {3, 4} : \A ax \in [1..n -> (-r)..(r - 1)] :
+         (n <= r \/ ax[1] >= 0) =>          \* (lists longer than the rank always repeat an axis: half of them are enough)
+         LET starts == [k \in 1..n |-> IF k = n THEN 1 ELSE 0]
+             ends == [k \in 1..n |-> 2]
+             steps == [k \in 1..n |-> 1]
+             a == SemSliceInts(X, starts, ends, ax, steps) IN
+         P(CaseRecK("slice", "Slice", <<>>, <<X, I64(starts), I64(ends), I64(ax), I64(steps)>>, a,
+                    <<Tag(a), "axes_list", IF a.must = "error" THEN "repeated_axis" ELSE "distinct_axes">>, KnownSlice(X, starts, ends, ax, steps)))
+
 \* ---- Gather: every axis, index tensors of rank 0..GatherIdxRank with every in-range value, plus out of range
 IdxShapes == ShapesOf(0..GatherIdxRank, 1..2)
 GatherCases(shape, axis) ==
@@ -190,7 +204,7 @@ Emit ==
         [] st.fam = "slicex"    -> SliceExtremeCases(st.shape) /\ SliceInvalidCases(st.shape)
         [] st.fam = "gather"    -> (st.axis \in (-Len(st.shape) - 1)..Len(st.shape) => GatherCases(st.shape, st.axis))
         [] st.fam = "expand"    -> ExpandCases(st.shape, st.target)
-        [] st.fam = "dtypes"    -> DtypeCases(st.dt) /\ (st.dt = "f32" => LongCases /\ SpecialValueCases /\ TileIndexCases /\ ZeroExtentConcatCases)
+        [] st.fam = "dtypes"    -> DtypeCases(st.dt) /\ (st.dt = "f32" => LongCases /\ SpecialValueCases /\ TileIndexCases /\ ZeroExtentConcatCases /\ AxesListCases)
    /\ st' = [st EXCEPT !.done = TRUE]
 Next == Emit
 Spec == Init /\ [][Next]_st
